@@ -38,7 +38,10 @@ type Ctx struct {
 	V       *Violation
 	Softs   []*Violation // known-defect style findings that do not end the run
 	Bug     string
-	Opaque  any // engine-specific
+	// Poisoned: the run left goroutines behind (deadlock verdict); the process
+	// must not be used for further runs
+	Poisoned bool
+	Opaque   any // engine-specific
 }
 
 func newCtx(t *Tape, tier string, keep bool) *Ctx {
